@@ -17,8 +17,8 @@ theorem isTest_not_jump (n : String) (h : isTest n = true) : isJump n = false :=
 theorem testChain_corr (cx : Cx) (L : Nat) : ∀ (bps : List BP) (js : List LItem) (hs : List Hdr) (tgt : BP → Nat),
     HdrsTo tgt bps js → (∀ b ∈ bps, tgt b = L) → NamesOf hs bps → HdrsOK hs →
     ∀ r p, Placed cx.rs r p js → ∀ (onT onN : Nat) (b : Src.B),
-      Grow b (Src.testChain [] (hs.map hdrEv) onT onN b).1 ∧
-      (AgreeOn cx.N b (Src.testChain [] (hs.map hdrEv) onT onN b).1 → ∀ m j, R2 cx m j (target cx.rs L) onT →
+      Pushes b (Src.testChain [] (hs.map hdrEv) onT onN b).1 ∧
+      (AgreeOn cx.N cx.Z b (Src.testChain [] (hs.map hdrEv) onT onN b).1 → ∀ m j, R2 cx m j (target cx.rs L) onT →
         R2 cx m j ⟨r, p + js.length⟩ onN → R2 cx m j ⟨r, p⟩ (Src.testChain [] (hs.map hdrEv) onT onN b).2) := by
   intro bps js hs tgt hh
   induction hh generalizing hs with
@@ -27,7 +27,7 @@ theorem testChain_corr (cx : Cx) (L : Nat) : ∀ (bps : List BP) (js : List LIte
     have : hs = [] := by simpa [NamesOf] using hn.symm
     subst this
     simp only [List.map_nil, Src.testChain]
-    exact ⟨Grow.refl b, fun _ m j _ h2 => by simpa using h2⟩
+    exact ⟨Pushes.refl b, fun _ m j _ h2 => by simpa using h2⟩
   | @cons b0 bps' js' n hh' ih =>
     intro htg hn hok r p hp onT onN b
     cases hs with
@@ -45,10 +45,10 @@ theorem testChain_corr (cx : Cx) (L : Nat) : ∀ (bps : List BP) (js : List LIte
       obtain ⟨b1, re⟩ := R
       simp only at g1 c1 ⊢
       obtain ⟨a1, a2⟩ := tbl_push b1 (.test (Src.substEv [] (hdrEv h0)) onT re)
-      refine ⟨g1.trans (Grow.push _ _), fun hag m j hT hN => ?_⟩
+      refine ⟨g1.trans (Pushes.push _ _), fun hag m j hT hN => ?_⟩
       rw [a2]
       have hN1 : cx.N[(tbl b1).length]? = some (.test (Src.substEv [] (hdrEv h0)) onT re) := by
-        rw [hag _ g1.len (by rw [a1]; simp), a1]; simp
+        rw [hag.2 _ g1.len (by rw [a1]; simp), a1]; simp
       have ht := hok h0 (by simp)
       have hit : itemAt cx.rs ⟨r, p⟩ = some (.ljump ⟨n, b0.name, b0.params⟩ (some (tgt b0))) := by
         simpa using hp.item (d := 0) rfl
@@ -97,8 +97,8 @@ theorem block_patched (E : Nat) (sL eL : Nat) (ops js : List LItem) (hno : NoNon
 /-- entering a block at its start label runs the body -/
 theorem block_enter (cx : Cx) {ops : List LItem} {s0 s1 : St} {trBody : Nat → Src.B → Src.B × Nat} {env : Src.Env}
     (hBody : PieceOK cx ops s0 s1 trBody env) (sL : Nat) (tail : List LItem) {r ib : Nat}
-    (hp : Placed cx.rs r ib ([.label sL false] ++ ops ++ tail)) (k : Nat) (b : Src.B) (hag : AgreeOn cx.N b (trBody k b).1)
-    (m j : Nat) (hex : ExitsOK cx m j s0 env) (hafter : falls ops = true → R2 cx m j ⟨r, ib + 1 + ops.length⟩ k) :
+    (hp : Placed cx.rs r ib ([.label sL false] ++ ops ++ tail)) (k : Nat) (b : Src.B) (hag : AgreeOn cx.N cx.Z b (trBody k b).1)
+    (m j : Nat) (hex : ExitsOK cx m j s0 env) (hin : NamedIn cx s1) (hafter : falls ops = true → R2 cx m j ⟨r, ib + 1 + ops.length⟩ k) :
     R2 cx m j ⟨r, ib⟩ (trBody k b).2 ∧ target cx.rs sL = ⟨r, ib⟩ := by
   have hit : itemAt cx.rs ⟨r, ib⟩ = some (.label sL false) := by simpa using hp.item (d := 0) (by simp)
   have hpo : Placed cx.rs r (ib + 1) ops := by
@@ -106,6 +106,19 @@ theorem block_enter (cx : Cx) {ops : List LItem} {s0 s1 : St} {trBody : Nat → 
     simpa using this
   have hpre : afterCtxL cx.rs ⟨r, ib + 1⟩ = false := by rw [afterCtxL_succ, hit]; rfl
   have hres : target cx.rs sL = ⟨r, ib⟩ := by simpa using hp.resolve cx.hlab (d := 0) (l := sL) (nm := false) (by simp)
-  exact ⟨R2.silL (lab_label hit) (hBody.corr r (ib + 1) hpo hpre k b hag m j hex hafter), hres⟩
+  exact ⟨R2.silL (lab_label hit) (hBody.corr r (ib + 1) hpo hpre k b hag m j hex hin hafter), hres⟩
+
+/-- the label nodes set while translating the body of a block -/
+theorem block_labs (cx : Cx) {ops : List LItem} {s0 s1 : St} {trBody : Nat → Src.B → Src.B × Nat} {env : Src.Env}
+    (hBody : PieceOK cx ops s0 s1 trBody env) (sL : Nat) (tail : List LItem) {r ib : Nat}
+    (hp : Placed cx.rs r ib ([.label sL false] ++ ops ++ tail)) (k : Nat) (b : Src.B) (hag : AgreeOn cx.N cx.Z b (trBody k b).1)
+    (m j : Nat) (hex : ExitsOK cx m j s0 env) (hin : NamedIn cx s1) (hafter : falls ops = true → R2 cx m j ⟨r, ib + 1 + ops.length⟩ k) :
+    LabExport cx env m j b (trBody k b).1 := by
+  have hit : itemAt cx.rs ⟨r, ib⟩ = some (.label sL false) := by simpa using hp.item (d := 0) (by simp)
+  have hpo : Placed cx.rs r (ib + 1) ops := by
+    have := (Placed.left (a := [LItem.label sL false] ++ ops) (b := tail) hp).right
+    simpa using this
+  have hpre : afterCtxL cx.rs ⟨r, ib + 1⟩ = false := by rw [afterCtxL_succ, hit]; rfl
+  exact hBody.labs r (ib + 1) hpo hpre k b hag m j hex hin hafter
 
 end ESV.Comp
